@@ -1,5 +1,6 @@
 import GdVerif.Run.Common
 import GdVerif.Gen.Views
+import GdVerif.Spec.Views
 /-
   Driver entry for C15: evaluate the GENERATED accessor tables on a response value given as a token
   tree and print the protocol-independent JSON form.
@@ -68,6 +69,20 @@ def entryView (args : List String) : String :=
     | _, _ => "bad-case"
   | _ => "bad-case"
 
-def viewEntries : List (String × (List String → String)) := [("view", entryView)]
+def findIntended (file trait type : String) : Option (List (String × ViewExpr)) :=
+  (Gd.Views.Spec.intended.find? fun v => v.1 == file && v.2.1 == trait && v.2.2.1 == type).map (·.2.2.2)
+
+/-- `view-intended <file> <Type> <player file|-> <player Type|-> <tokens…>`: the same evaluation with the INTENDED
+table (Spec/Views.lean, written from RESPONSES.md) instead of the one generated from the source: what the view must be -/
+def entryViewIntended (args : List String) : String :=
+  match args with
+  | file :: type :: pfile :: ptype :: toks =>
+    match findIntended file "CommonResponse" type, parseVal toks with
+    | some rt, some (v, []) => showVal (responseJson rt ((findIntended pfile "CommonPlayer" ptype).getD []) v)
+    | none, _ => "no-such-view"
+    | _, _ => "bad-case"
+  | _ => "bad-case"
+
+def viewEntries : List (String × (List String → String)) := [("view", entryView), ("view-intended", entryViewIntended)]
 
 end Gd.Run
